@@ -224,7 +224,7 @@ func (ex *Exec) goLiteral(ms *modelSession, v Val, ty types.Type, depth int) (st
 			return "", fmt.Errorf("slice length %d out of replay range", n)
 		}
 		es := sortOf(u.Elem())
-		h := ex.getHeap(ex.init, heapArrName(es), ArrS(SInt, ArrS(SInt, es)))
+		h := ex.getHeap(ex.init, heapArrName(u.Elem()), ArrS(SInt, ArrS(SInt, es)))
 		var elems []string
 		for i := int64(0); i < n; i++ {
 			et := Select(Select(h, SlBase(v.T)), Add(SlOff(v.T), IntLit(i)))
@@ -315,7 +315,7 @@ func (ex *Exec) sizeBounds(n int64, ascii bool) []*Term {
 		case SSlice:
 			out = append(out, Le(SlLen(v.T), IntLit(4)), Le(SlOff(v.T), IntLit(2)))
 			if sl, ok := ty.Underlying().(*types.Slice); ok && sortOf(sl.Elem()) == SStr {
-				h := ex.getHeap(ex.init, heapArrName(SStr), ArrS(SInt, ArrS(SInt, SStr)))
+				h := ex.getHeap(ex.init, heapArrName(sl.Elem()), ArrS(SInt, ArrS(SInt, SStr)))
 				for i := int64(0); i < 4; i++ {
 					strBound(Select(Select(h, SlBase(v.T)), Add(SlOff(v.T), IntLit(i))), n)
 				}
